@@ -283,6 +283,15 @@ Qed.
    computed.  [is2 X ny nx f]: X is a well-formed ny x nx array (no numpy error) whose element
    (r, c) is f r c for every pixel of the image. *)
 
+(* pandora.common.sliding_window as generated (shape tuple (H - w0 + 1,) + (W - w1 + 1,) + shape,
+   strides = base.strides + base.strides, as_strided): on a C-contiguous H x W array, every window
+   size that fits: no error, and element (i, j, a, b) of the view is element (i + a, j + b) of the
+   array (so every offset of the view is inside the array's memory) *)
+Theorem C10_gen_sliding_window : forall (X : nd oq) h w g w0 w1, is2 X h w g ->
+  0 <= w0 <= h -> 0 <= w1 <= w ->
+  is4 (g_sliding_window X [w0; w1]) (h - w0 + 1) (w - w1 + 1) w0 w1 (fun i j a b => g (i + a) (j + b)).
+Proof. exact gen_sliding_window_is. Qed.
+
 (* the body of normalized_gaussian is the Gaussian formula exp(-((x / sigma)^2) * 0.5) / (sigma *
    sqrt(2 pi)) (exp, sqrt and pi never reach Coq as numbers), which is strictly positive whatever
    positive exponential / square root / pi interprets it *)
@@ -413,6 +422,44 @@ Proof.
   apply gen_bilateral_eq_weighted_mean; assumption.
 Qed.
 
+(* hence between the smallest and the largest valid disparity of the window, on the generated code *)
+Theorem C10_gen_bilateral_between_min_max : forall ng ngs ss sc ds ny nx disp mask r c cv, (0 <= ss)%Q ->
+  let win := win_width ny nx ss in
+  let lo := win / 2 in
+  let hi := win - 1 - lo in
+  1 <= win ->
+  kernel_ok (sp_of (gen_sk ngs ss win) lo) (ng sc) lo hi ->
+  is2 (ds_disp ds) ny nx disp -> is2 (ds_mask ds) ny nx mask ->
+  fits lo hi ny nx r c -> valid_disp msk_pixel_invalid disp mask r c = Some cv ->
+  0 <= r < ny -> 0 <= c < nx ->
+  let ds' := g_bilateral_filter_disparity (g_filter_bilateral ng ngs (skel_block_loop BlockLoops.filter_bilateral)) ss sc ds in
+  exists m, elt (ds_disp ds') [r; c] = Some m /\
+            between_min_max m (win_vals (valid_disp msk_pixel_invalid disp mask) lo hi r c).
+Proof.
+  intros ng ngs ss sc ds ny nx disp mask r c cv Hss win lo hi Hwin Hk Hd Hm Hf Hv Hr Hc ds'.
+  destruct (C10_gen_bilateral_eq_weighted_mean ng ngs ss sc ds ny nx disp mask Hss Hwin Hk Hd Hm) as (_ & _ & (_ & _ & Hg) & Hspec).
+  destruct (window_reach win Hwin) as (Hlo & Hhi & _).
+  destruct (bilateral_spec_between _ _ _ _ _ _ _ _ _ _ _ r c cv Hlo Hhi Hk Hspec Hf Hv) as (m & Hm' & Hb).
+  exists m. split; [|exact Hb]. unfold ds'. rewrite Hg by assumption. exact Hm'.
+Qed.
+
+(* the generated filters give every pixel of the image the same value whichever accepted block loop
+   (any block size >= 1, Lib/BlockSkeleton.filter_skeleton_ok) runs them *)
+Theorem C10_gen_block_independent : forall sk sk' rad D ny nx data ng ngs ss sc,
+  is2 D ny nx data -> 0 <= rad ->
+  (BlockSkeleton.filter_skeleton_ok BlockSkeleton.KNanMedian sk = true ->
+   BlockSkeleton.filter_skeleton_ok BlockSkeleton.KNanMedian sk' = true ->
+   forall r c, 0 <= r < ny -> 0 <= c < nx ->
+     elt (g_median_filter (skel_block_loop sk) (2 * rad + 1) D) [r; c]
+     = elt (g_median_filter (skel_block_loop sk') (2 * rad + 1) D) [r; c]) /\
+  (BlockSkeleton.filter_skeleton_ok BlockSkeleton.KBilateral sk = true ->
+   BlockSkeleton.filter_skeleton_ok BlockSkeleton.KBilateral sk' = true ->
+   (0 <= ss)%Q -> 1 <= win_width ny nx ss ->
+   forall r c, 0 <= r < ny -> 0 <= c < nx ->
+     elt (g_filter_bilateral ng ngs (skel_block_loop sk) D ss sc) [r; c]
+     = elt (g_filter_bilateral ng ngs (skel_block_loop sk') D ss sc) [r; c]).
+Proof. exact gen_block_independent. Qed.
+
 (* median_for_intervals.filter_disparity as generated: the disparity map is never touched; each
    interval-bound band is replaced by the SAME generated median_filter of a copy of that band (= the
    model's, satisfying the Spec of the array-level median); without regularisation the mask is the
@@ -531,6 +578,7 @@ Print Assumptions C10_bilateral_block_independent.
 Print Assumptions C10_bilateral_reads_image_only.
 Print Assumptions C10_mfi_same_median_on_bands.
 Print Assumptions C10_mfi_only_bit11.
+Print Assumptions C10_gen_sliding_window.
 Print Assumptions C10_gen_normalized_gaussian_is_the_gaussian.
 Print Assumptions C10_gen_spatial_weight_is_radial.
 Print Assumptions C10_gen_bilateral_kernel_per_window.
@@ -540,4 +588,6 @@ Print Assumptions C10_gen_median_filter_eq_model.
 Print Assumptions C10_gen_filter_bilateral_eq_model.
 Print Assumptions C10_gen_median_eq_spec.
 Print Assumptions C10_gen_bilateral_eq_weighted_mean.
+Print Assumptions C10_gen_bilateral_between_min_max.
+Print Assumptions C10_gen_block_independent.
 Print Assumptions C10_gen_mfi_same_median_only_bit11.
